@@ -26,7 +26,8 @@ CONSTANTS Entries,      \* leaf entry alphabet: set of [k, n, to]  (k \in {"file
           MaxTop,       \* entries at the top level
           MaxChild,     \* entries inside a directory entry
           PreStates,    \* pre-populated contents of /w/out: set of functions relative-path -> node
-          GuardFinal    \* BOOLEAN
+          GuardFinal,   \* BOOLEAN
+          FileRoots     \* BOOLEAN: top-level items may also be bare FILE ROOTS of the archive
 
 VARIABLES fs, todo, aborted, arch, pre
 vars == <<fs, todo, aborted, arch, pre>>
@@ -107,10 +108,15 @@ Symlink(f, p, to) ==
 ---------------------------------------------------------------------------
 LeafSeqs(n) == UNION { [1..k -> Entries] : k \in 0..n }
 DirEntry(nm, ch) == [k |-> "dir", n |-> nm, ch |-> ch]
+(* A root of the archive that is a file, not a directory: ExtractToDir writes it to <out>/unknown
+   with extractFile directly -- the name does not pass through resolvePath.  In `arch` the items
+   between two file roots are the entries of one directory root. *)
+FRoot == [k |-> "froot", n |-> <<"unknown">>, to |-> [abs |-> FALSE, segs |-> <<>>]]
 
 Init ==
   /\ \E p0 \in PreStates : pre = p0
-  /\ \E k \in 1..MaxTop : \E top \in [1..k -> Entries \cup { DirEntry(nm, ch) : nm \in DirNames, ch \in LeafSeqs(MaxChild) }] : arch = top
+  /\ \E k \in 1..MaxTop : \E top \in [1..k -> Entries \cup { DirEntry(nm, ch) : nm \in DirNames, ch \in LeafSeqs(MaxChild) }
+                                                     \cup (IF FileRoots THEN {FRoot} ELSE {})] : arch = top
   /\ fs = Base @@ [p \in { Out \o q : q \in DOMAIN pre } |-> pre[SubSeq(p, 3, Len(p))]]
   /\ todo = [i \in 1..Len(arch) |-> [d |-> <<>>, e |-> arch[i]]]
   /\ aborted = FALSE
@@ -120,7 +126,7 @@ Content(e) == "DATA"
 Step ==
   /\ todo # <<>> /\ ~aborted
   /\ LET it == Head(todo) e == it.e rel == it.d \o e.n
-         target == ResolvePath(fs, rel) IN
+         target == IF e.k = "froot" THEN Out \o e.n ELSE ResolvePath(fs, rel) IN
      IF IsErr(target)
        THEN aborted' = TRUE /\ UNCHANGED <<fs, todo>>
      ELSE IF e.k = "dir"
@@ -129,7 +135,7 @@ Step ==
             ELSE /\ fs' = r.fs
                  /\ todo' = [i \in 1..Len(e.ch) |-> [d |-> Clean(<<>>, rel), e |-> e.ch[i]]] \o Tail(todo)
                  /\ UNCHANGED aborted
-     ELSE LET r == IF e.k = "file" THEN Create(fs, target, Content(e)) ELSE Symlink(fs, target, e.to) IN
+     ELSE LET r == IF e.k \in {"file", "froot"} THEN Create(fs, target, Content(e)) ELSE Symlink(fs, target, e.to) IN
           IF ~r.ok THEN aborted' = TRUE /\ UNCHANGED <<fs, todo>>
           ELSE fs' = r.fs /\ todo' = Tail(todo) /\ UNCHANGED aborted
   /\ UNCHANGED <<arch, pre>>
